@@ -284,7 +284,7 @@ Eval(e, w) == EvalE(e, w)
 (***************************************************************************)
 EmptyWorld(val, cont, mem) ==
   [env |-> <<>>, val |-> val, cont |-> cont, mem |-> mem, memN |-> <<>>, info |-> <<>>, ents |-> <<>>, enables |-> <<>>,
-   named |-> <<>>, order |-> <<>>, undef |-> FALSE, ncell |-> 0, funs |-> <<>>, ret |-> VInt(0)]
+   named |-> <<>>, order |-> <<>>, undef |-> FALSE, ncell |-> 0, funs |-> <<>>, ret |-> VInt(0), files |-> <<>>, done |-> {}]
 Bind(env, n, v) == (n :> v) @@ env      \* @@ prefers the left operand: inner definitions shadow
 SetEnv(w, n, v) == [w EXCEPT !.env = Bind(w.env, n, v)]
 MarkUndef(w, v) == IF v.kind = "err" THEN [w EXCEPT !.undef = TRUE] ELSE w
@@ -326,6 +326,32 @@ WriteCell(w, s, cell) ==
                        !.info = (cell :> [mode |-> s.mode, c |-> 0, v |-> ValOr0(v), sa |-> sa, ra |-> ra]) @@ w.info,
                        !.undef = w.undef \/ v.kind = "err" \/ sv.kind = "err" \/ rv.kind = "err"]
 
+(* bundled math library (lib/math.facto): the DOCUMENTED mathematical definitions, for arguments for which the documented   *)
+(* formula does not overflow (otherwise VErr: the valuation is skipped).  Results are compiler-typed (free).                *)
+LibNames == {"abs", "sign", "min", "max", "clamp", "lerp", "between", "get_bit", "set_bit", "clear_bit", "toggle_bit", "div_floor", "mod_positive"}
+InR(x) == x >= -2147483647 /\ x <= 2147483647       \* strictly inside int32 (so that negation is exact)
+Small(x) == x > -30000 /\ x < 30000
+LibVal(f, a) ==
+  LET x == a[1].v
+      y == IF Len(a) >= 2 THEN a[2].v ELSE 0
+      z == IF Len(a) >= 3 THEN a[3].v ELSE 0
+      ok(c, v) == IF c THEN VSig("?", TRUE, v) ELSE VErr("lib-domain")
+      absx(q) == IF q < 0 THEN -q ELSE q
+      pos == y >= 0 /\ y <= 30
+  IN CASE f = "abs" -> ok(InR(x), absx(x))
+       [] f = "sign" -> ok(TRUE, IF x > 0 THEN 1 ELSE IF x < 0 THEN -1 ELSE 0)
+       [] f = "min" -> ok(TRUE, IF x <= y THEN x ELSE y)
+       [] f = "max" -> ok(TRUE, IF x >= y THEN x ELSE y)
+       [] f = "clamp" -> ok(y <= z, IF x < y THEN y ELSE IF x > z THEN z ELSE x)
+       [] f = "lerp" -> ok(Small(x) /\ Small(y) /\ Small(z), x + Div32((y - x) * z, 100))
+       [] f = "between" -> ok(TRUE, IF x >= y /\ x <= z THEN 1 ELSE 0)
+       [] f = "get_bit" -> ok(pos, And32(Shr32(x, y), 1))
+       [] f = "set_bit" -> ok(pos, Or32(x, Shl32(1, y)))
+       [] f = "clear_bit" -> ok(pos, And32(x, Xor32(-1, Shl32(1, y))))
+       [] f = "toggle_bit" -> ok(pos, Xor32(x, Shl32(1, y)))
+       [] f = "div_floor" -> ok(y # 0 /\ InR(x) /\ InR(y), x \div y)              \* TLA+ \div is floor division
+       [] f = "mod_positive" -> ok(y # 0 /\ InR(x) /\ InR(y), x % absx(y))        \* in 0 .. |y| - 1
+
 RECURSIVE Exec(_, _, _, _), ExecS(_, _, _), ExecLoop(_, _, _, _), ExecCall(_, _)
 \* a call: body executed in a scope that holds only the functions and the parameters; effects on the world persist,
 \* the caller's names are restored afterwards; w.ret carries the returned value
@@ -337,6 +363,11 @@ BindParams(ps, args, i, env, w) ==
         IN Bind(F[k-1], ps[k].n, v)
   IN F[Len(ps)]
 ExecCall(e, w) ==
+  IF e.f \notin DOMAIN w.funs /\ e.f \in LibNames
+  THEN LET args == [i \in DOMAIN e.args |-> Eval(e.args[i], w)]
+           rv == IF \E i \in DOMAIN args : args[i].kind = "err" THEN VErr("undef") ELSE LibVal(e.f, args)
+       IN [w EXCEPT !.ret = rv, !.undef = w.undef \/ rv.kind = "err"]
+  ELSE
   LET f == w.funs[e.f]
       inner == [w EXCEPT !.env = BindParams(f.params, e.args, 1, <<>>, w)]
       after == Exec(f.body, 1, inner, FALSE)
@@ -373,9 +404,26 @@ ExecS(s, w, top) ==
                        ELSE w
     [] s.k = "func" -> [w EXCEPT !.funs = (s.n :> s) @@ w.funs]
     [] s.k = "for" -> ExecLoop(s, IterVals(s.iter, w), 1, w)
+    \* import "f": the file's text stands in its place ONCE (a second import of the same file, also through a cycle, adds nothing)
+    [] s.k = "import" -> IF s.path \in w.done \/ s.path \notin DOMAIN w.files THEN w
+                         ELSE Exec(w.files[s.path], 1, [w EXCEPT !.done = w.done \cup {s.path}], top)
     [] OTHER -> w
 Exec(ss, i, w, top) == IF i > Len(ss) THEN w ELSE Exec(ss, i + 1, ExecS(ss[i], w, top), top)
 Run(stmts, val, cont, mem) == Exec(stmts, 1, EmptyWorld(val, cont, mem), TRUE)
+RunF(stmts, files, val, cont, mem) == Exec(stmts, 1, [EmptyWorld(val, cont, mem) EXCEPT !.files = files], TRUE)
+
+\* Paste: the program with every import replaced by the file's statements (first occurrence; later ones vanish)
+RECURSIVE PasteB(_, _, _)
+PasteB(ss, files, done) ==
+  IF ss = <<>> THEN [out |-> <<>>, done |-> done]
+  ELSE LET s == Head(ss) IN
+       IF s.k = "import" /\ s.path \in DOMAIN files /\ s.path \notin done
+       THEN LET inner == PasteB(files[s.path], files, done \cup {s.path})
+                rest == PasteB(Tail(ss), files, inner.done)
+            IN [out |-> inner.out \o rest.out, done |-> rest.done]
+       ELSE IF s.k = "import" THEN PasteB(Tail(ss), files, done)
+       ELSE LET rest == PasteB(Tail(ss), files, done) IN [out |-> <<s>> \o rest.out, done |-> rest.done]
+Paste(stmts, files) == PasteB(stmts, files, {}).out
 
 (* ---------------------- explicit signal names (C13) ---------------------- *)
 \* signal names written in the program text
